@@ -64,6 +64,9 @@ func MustFrom(fn *ssa.Function, entry Facts, eg EdgeGen, gen, kill InstrFn) map[
 						if eg != nil {
 							e |= eg(p, si)
 						}
+						if pe, ok := phiEdge(p, si, in, eg, gen, kill, true); ok {
+							e = pe
+						}
 						f &= e
 					}
 				}
@@ -114,6 +117,9 @@ func MayFrom(fn *ssa.Function, entry Facts, eg EdgeGen, gen, kill InstrFn) map[*
 						if eg != nil {
 							e |= eg(p, si)
 						}
+						if pe, ok := phiEdge(p, si, in, eg, gen, kill, false); ok {
+							e = pe
+						}
 						f |= e
 					}
 				}
@@ -128,6 +134,291 @@ func MayFrom(fn *ssa.Function, entry Facts, eg EdgeGen, gen, kill InstrFn) map[*
 		}
 	}
 	return in
+}
+
+// ---- path sensitivity for tests of phi values ----
+//
+// A block p that joins several paths and then branches on a value merged by a phi of p
+// (`res, err := helper(); if err != nil` after the helper was inlined; `ok := a; if c { ok = b }; if ok`)
+// is treated as if it were duplicated per predecessor: for each predecessor q the phi is replaced by
+// its incoming value, the branch is decided when that value is a constant (nil / non-nil / bool), and
+// the edge generator is evaluated with the substitution in force (CondValue, NilEdge and ErrNilEdge
+// see the incoming value). Without this, facts established on one incoming path are intersected away
+// at the join although the test that follows separates the paths again.
+
+var phiSubst map[*ssa.Phi]ssa.Value
+
+// SubstPhi returns the value currently substituted for v (v itself outside a per-predecessor evaluation).
+func SubstPhi(v ssa.Value) ssa.Value {
+	if phiSubst == nil {
+		return v
+	}
+	for i := 0; i < 4; i++ {
+		p, ok := v.(*ssa.Phi)
+		if !ok {
+			return v
+		}
+		r, ok := phiSubst[p]
+		if !ok {
+			return v
+		}
+		v = r
+	}
+	return v
+}
+
+// CondValue returns the condition of iff with the current phi substitution applied.
+func CondValue(iff *ssa.If) ssa.Value { return SubstPhi(iff.Cond) }
+
+// condPhis returns the phis of block p that its terminating If depends on (through comparisons
+// and negations computed in p); nil if p is not such a block.
+func condPhis(p *ssa.BasicBlock) []*ssa.Phi {
+	iff := IfOf(p)
+	if iff == nil || len(p.Preds) < 2 {
+		return nil
+	}
+	var out []*ssa.Phi
+	var walk func(v ssa.Value, d int)
+	walk = func(v ssa.Value, d int) {
+		if d > 4 {
+			return
+		}
+		switch x := v.(type) {
+		case *ssa.Phi:
+			if x.Block() == p {
+				out = append(out, x)
+			}
+		case *ssa.BinOp:
+			if x.Block() == p {
+				walk(x.X, d+1)
+				walk(x.Y, d+1)
+			}
+		case *ssa.UnOp:
+			if x.Block() == p && x.Op == token.NOT {
+				walk(x.X, d+1)
+			}
+		}
+	}
+	walk(iff.Cond, 0)
+	return out
+}
+
+// decideCond evaluates a branch condition under the current substitution: (value, known).
+func decideCond(v ssa.Value, d int) (bool, bool) {
+	if d > 4 {
+		return false, false
+	}
+	v = SubstPhi(v)
+	switch x := v.(type) {
+	case *ssa.Const:
+		return ConstBool(x)
+	case *ssa.UnOp:
+		if x.Op == token.NOT {
+			b, ok := decideCond(x.X, d+1)
+			return !b, ok
+		}
+	case *ssa.BinOp:
+		if x.Op != token.EQL && x.Op != token.NEQ {
+			return false, false
+		}
+		a, b := SubstPhi(x.X), SubstPhi(x.Y)
+		var other ssa.Value
+		switch {
+		case IsNilConst(b):
+			other = a
+		case IsNilConst(a):
+			other = b
+		default:
+			return false, false
+		}
+		isNil, known := nilness(other)
+		if !known && phiPred != nil {
+			isNil, known = nilnessAt(other, phiPred)
+		}
+		if !known {
+			return false, false
+		}
+		return isNil == (x.Op == token.EQL), true
+	}
+	return false, false
+}
+
+// phiPred is the predecessor block for which the current substitution holds.
+var phiPred *ssa.BasicBlock
+
+// nilnessAt: nil-ness of v established by a dominating test: some dominator d of block q ends in
+// `v == nil` / `v != nil` and only one of its successors (entered from d alone) dominates q.
+func nilnessAt(v ssa.Value, q *ssa.BasicBlock) (bool, bool) {
+	for d := q; d != nil; d = d.Idom() {
+		iff := IfOf(d)
+		if iff == nil || len(d.Succs) != 2 {
+			continue
+		}
+		x, eq, ok := NilTest(iff.Cond)
+		if !ok || x != v {
+			continue
+		}
+		through := func(s *ssa.BasicBlock) bool {
+			return len(s.Preds) == 1 && (s == q || s.Dominates(q))
+		}
+		t, f := through(d.Succs[0]), through(d.Succs[1])
+		if t == f {
+			continue
+		}
+		// true edge taken: cond holds
+		condHolds := t
+		return condHolds == eq, true
+	}
+	return false, false
+}
+
+// nilness: (is nil, known) for values whose nil-ness is evident.
+func nilness(v ssa.Value) (bool, bool) {
+	switch x := v.(type) {
+	case *ssa.Const:
+		if x.IsNil() {
+			return true, true
+		}
+	case *ssa.MakeInterface, *ssa.Alloc, *ssa.MakeMap, *ssa.MakeSlice, *ssa.MakeChan, *ssa.MakeClosure, *ssa.FieldAddr, *ssa.IndexAddr:
+		return false, true
+	case *ssa.Call:
+		if f := x.Call.StaticCallee(); f != nil {
+			switch f.String() {
+			case "errors.New", "fmt.Errorf":
+				return false, true
+			}
+		}
+	}
+	return false, false
+}
+
+// phiEdge computes the facts flowing along the edge p -> p.Succs[si] when p branches on phis of its
+// own: the meet (must) / join (may) over the predecessors q of p whose incoming values allow that
+// successor, of transfer(p, facts on q->p) plus the edge facts generated under the substitution.
+func phiEdge(p *ssa.BasicBlock, si int, in map[*ssa.BasicBlock]Facts, eg EdgeGen, gen, kill InstrFn, must bool) (Facts, bool) {
+	if phiSubst != nil {
+		return 0, false // no nesting
+	}
+	phis := condPhis(p)
+	if len(phis) == 0 {
+		return 0, false
+	}
+	iff := IfOf(p)
+	transfer := func(b *ssa.BasicBlock, f Facts) Facts {
+		for _, i := range b.Instrs {
+			if kill != nil {
+				f &^= kill(i)
+			}
+			if gen != nil {
+				f |= gen(i)
+			}
+		}
+		return f
+	}
+	const top = ^Facts(0)
+	var acc Facts
+	if must {
+		acc = top
+	}
+	for k, q := range p.Preds {
+		// facts on the edge q -> p (p may appear more than once among q's successors)
+		var fin Facts
+		if must {
+			fin = top
+		}
+		oq := transfer(q, in[q])
+		for sj, s := range q.Succs {
+			if s != p {
+				continue
+			}
+			e := oq
+			if eg != nil {
+				e |= eg(q, sj)
+			}
+			if must {
+				fin &= e
+			} else {
+				fin |= e
+			}
+		}
+		if must && in[q] == top && q != p.Parent().Blocks[0] {
+			// q not reached (yet): contributes the top element
+			fin = top
+		}
+		sub := map[*ssa.Phi]ssa.Value{}
+		for _, in2 := range p.Instrs {
+			ph, ok := in2.(*ssa.Phi)
+			if !ok {
+				break
+			}
+			if k < len(ph.Edges) {
+				sub[ph] = ph.Edges[k]
+			}
+		}
+		phiSubst = sub
+		phiPred = q
+		val, known := decideCond(iff.Cond, 0)
+		feasible := !known || (val == (si == 0))
+		var e Facts
+		if feasible {
+			e = transfer(p, fin)
+			if eg != nil {
+				e |= eg(p, si)
+			}
+		}
+		phiSubst = nil
+		phiPred = nil
+		if !feasible {
+			continue
+		}
+		if must {
+			acc &= e
+		} else {
+			acc |= e
+		}
+	}
+	return acc, true
+}
+
+// SuccsFrom returns the successor indices of b that are feasible when b is entered from pred:
+// all of them, unless b branches on a phi of its own whose incoming value from pred decides the test.
+func SuccsFrom(pred, b *ssa.BasicBlock) []int {
+	all := make([]int, len(b.Succs))
+	for i := range all {
+		all[i] = i
+	}
+	if pred == nil || phiSubst != nil || len(condPhis(b)) == 0 {
+		return all
+	}
+	k := -1
+	for i, q := range b.Preds {
+		if q == pred {
+			k = i
+		}
+	}
+	if k < 0 {
+		return all
+	}
+	sub := map[*ssa.Phi]ssa.Value{}
+	for _, in := range b.Instrs {
+		ph, ok := in.(*ssa.Phi)
+		if !ok {
+			break
+		}
+		if k < len(ph.Edges) {
+			sub[ph] = ph.Edges[k]
+		}
+	}
+	phiSubst, phiPred = sub, pred
+	val, known := decideCond(IfOf(b).Cond, 0)
+	phiSubst, phiPred = nil, nil
+	if !known {
+		return all
+	}
+	if val {
+		return []int{0}
+	}
+	return []int{1}
 }
 
 // FactsAt returns the facts holding just before instruction at.
@@ -207,7 +498,10 @@ func NilEdge(b *ssa.BasicBlock, pred func(ssa.Value) bool) int {
 	if iff == nil {
 		return -1
 	}
-	x, eq, ok := NilTest(iff.Cond)
+	x, eq, ok := NilTest(SubstPhi(iff.Cond))
+	if ok {
+		x = SubstPhi(x)
+	}
 	if !ok || !pred(x) {
 		return -1
 	}
